@@ -7,6 +7,7 @@ import (
 	sebufhttp "github.com/SebastienMelki/sebuf/http"
 	"google.golang.org/protobuf/proto"
 	"google.golang.org/protobuf/reflect/protoreflect"
+	"google.golang.org/protobuf/reflect/protoregistry"
 	"google.golang.org/protobuf/types/descriptorpb"
 
 	"verif/harness/model"
@@ -62,6 +63,15 @@ func rpcInfo(svc *rt.Service, m *rt.Method) *RPCInfo {
 		}
 	}
 	find(fd)
+	if md == nil {
+		// the service may live in another file than its request type (models/ + services/ layouts, shared types)
+		protoregistry.GlobalFiles.RangeFiles(func(f protoreflect.FileDescriptor) bool {
+			if md == nil && f.Path() != fd.Path() && strings.HasPrefix(f.Path(), strings.SplitN(fd.Path(), "/", 2)[0]+"/") {
+				find(f)
+			}
+			return md == nil
+		})
+	}
 	if md == nil {
 		return info
 	}
